@@ -697,6 +697,10 @@ mod response {
                 content_length,
             }
         }
+        /// If a part of the body is still on the socket, not read by anyone.
+        pub(crate) fn unread_on_socket(&self) -> bool {
+            self.content_length > self.offset.max(self.bytes.len())
+        }
         /// Reads all bytes from `self` to a [`Bytes`].
         ///
         /// # Errors
